@@ -685,6 +685,8 @@ class AccSignal(Signal):
         """Calculates the displacement and velocity time series"""
         self._velocity, self._displacement = sd.calc_velo_and_disp_from_accel_arr(self.values, self.dt, trap=trap)
         self._cached_disp_and_velo = True
+        self._cached_params.pop("pgv", None)  # peaks of the series that were just replaced
+        self._cached_params.pop("pgd", None)
 
     @property
     def velocity(self):
